@@ -75,6 +75,8 @@ class PartHooks(SliceHooks):
             conts = []
             if st.assume_ge0(hl - Lin.atom(k) - nlen):
                 st.flags['match'] = (hay.obj, hay.off + Lin.atom(k), nlen)
+                if mt1:
+                    st.ev('mhit', inst, args[2])        # this unit was found in the set searched
                 conts.append((st, PtrV(hay.obj, hay.off + Lin.atom(k), None)))
             conts.append((s2, NULL))
             return conts
@@ -620,7 +622,19 @@ def split_mode_blind(run, m, F, E, L):
 def tokenize(run, m, F, E, L):
     f = find(m, F, 'ST::string::tokenize(char const*) const')
     run.need(f is not None, 'tokenize not found')
-    I = Interp(m, F, E, PartHooks(m))
+
+    class TH(PartHooks):
+        # the walks inside the token loop (nested loops of the member, or loops of helpers it calls) are interpreted exactly for
+        # their first two rounds, so that a token that ends early has a real path
+        def unroll_for(self, I, fn, header, st=None):
+            from ..interp import loop_info
+            if st is not None and len(st.frames) > 1:
+                return 2
+            loops, _b = loop_info(fn)
+            if any(h2 != header and header in body for h2, body in loops.items()):
+                return 2
+            return self.unroll
+    I = Interp(m, F, E, TH(m))
     st = State()
     this, ret, entry = string_scene(I, st, L, 'large', with_ret=False)
     vec = I.fresh_ptr(st, 'result')
@@ -651,6 +665,20 @@ def tokenize(run, m, F, E, L):
                     probs.append('an empty piece may be emitted')
                 if not (s2.is_ge0(p.off - sto.off) is True and s2.is_ge0(sto.off + s - p.off - l2) is True):
                     und.append('piece range not decided to lie inside the string')
+                # a token is a *maximal* run: it ends where the string ends or where a unit was found in the delimiter set
+                end = p.off + l2
+                k9 = s2.events.index(e)
+                hits = [h for h in s2.events[:k9 + 40] if h[0] == 'mhit' and isinstance(h[2], IntV) and
+                        any(isinstance(a, tuple) and a[0] == 'load' and a[1] == sto.obj and isinstance(a[2], Lin) and s2.is_eq0(a[2] - end) is True
+                            for a in h[2].lin.atoms())]
+                if s2.is_eq0(end - sto.off - s) is not True and not hits:
+                    rest = sto.off + s - end
+                    env = s2.find_model([rest], lambda v: v[0] >= 1)
+                    if env is not None:
+                        probs.append('a token ends at offset %r although the string goes on and the unit there was not found in the delimiter set (a walk that '
+                                     'stops on something else than a delimiter or the end, e.g. on an embedded NUL); witness %s' % (end - sto.off, own.fmt_env(env)))
+                    else:
+                        und.append('end of a token (%r) not decided to be a delimiter or the end of the string' % (end - sto.off,))
             elif e[0] in ('oob', 'oob?') and isinstance(e[3], PtrV) and e[3].obj == sto.obj:
                 env = e[6] if len(e) > 6 else None
                 if e[0] == 'oob' or env is not None:
